@@ -516,3 +516,81 @@ def check_obm_order(ctx, rule="R-ORDER"):
                     S.term_str(t)[:200], n1, n2, "equal" if i1 == i2 else "self < other" if i1 < i2 else "self > other", nm.get(got, got), nm[want]))
     else:
         ctx.ok(rule, key, oc.span, "Obm::cmp orders by mask length descending, then network id, on all %d (mask length pair, id relation) cases" % n)
+
+
+def check_cidr(ctx, rule="R-CIDR"):
+    """CIDR text parses to the network it denotes: cidr_to_ip(text) = (address parsed from the piece before the first
+    '/', from_bitcount(number parsed from the piece after it)), and from_cidr builds Ipv4Net::new of that pair."""
+    prog = ctx.prog()
+    b = prog.one("subnetting::cidr_to_ip")
+    key = rule + ":cidr_to_ip"
+    try:
+        ex = S.Extractor(prog, (), effects=True, max_nodes=20000)
+        t = ex.run(b, S.params_of(b))
+    except S.Unsupported as e:
+        ctx.require(False, "%s: cannot extract cidr_to_ip (%s)" % (rule, e))
+    CIDR = S.params_of(b)[0]
+    oks = S.ok_paths(t, lambda x: x[0] == "agg" and x[1].endswith("Result::Ok"))
+    probs = []
+
+    def unwrap(x):
+        """strip `?` plumbing: downcast(branch(r)).0 -> r ; or(r, e) -> r ; ok_or(o, e) -> o"""
+        while True:
+            if x[0] == "field" and x[2] == "0" and x[1][0] == "downcast" and x[1][1][0] == "call" and x[1][1][1].endswith("::branch"):
+                x = x[1][1][2][0]
+            elif x[0] == "call" and x[1].rsplit("::", 1)[-1] in ("or", "ok_or", "map_err", "or_else") and x[2]:
+                x = x[2][0]
+            else:
+                return x
+
+    def piece(x):
+        """which '/'-separated piece a term is: 0, 1, ... or None"""
+        x = unwrap(x)
+        if not (x[0] == "call" and "{closure#" in x[1] and x[2]):
+            return None
+        env, n = x[2][0], 0
+        clo = x[1]
+        while env[0] == "upd" and env[1] == clo:
+            env = env[3][0]
+            n += 1
+        if env[0] == "agg" and env[1] == clo and len(env[2]) == 1:
+            sp = env[2][0]
+            if sp[0] == "call" and sp[1].rsplit("::", 1)[-1] == "split" and sp[2] == (CIDR, ("const", ord("/"))):
+                cb = prog.bodies.get(clo)
+                if cb is not None:
+                    ct, _ = S.extract(prog, cb, effects=True)
+                    v = unwrap(ct[1] if ct[0] == "state" else ct)
+                    if v[0] == "call" and v[1].rsplit("::", 1)[-1] == "next":
+                        return n
+        return None
+    if len(oks) != 1:
+        probs.append("cidr_to_ip has %d Ok results" % len(oks))
+    else:
+        v = oks[0][1][2][0]
+        if v[0] != "pair":
+            probs.append("cidr_to_ip does not return an (address, mask) pair")
+        else:
+            a, m = v[1], v[2]
+            while a[0] == "call" and a[1].rsplit("::", 1)[-1] in ("into", "from", "octets", "new") and len(a[2]) == 1:
+                a = a[2][0]
+            a = unwrap(a)
+            if not (a[0] == "call" and a[1].startswith("core::net::") and a[1].endswith("::from_str") and piece(a[2][0]) == 0):
+                probs.append("the address is not parsed (dotted quad) from the text before the first '/': %s" % S.term_str(a)[:120])
+            if not (m[0] == "call" and m[1].endswith("subnetting::{impl#2}::from_bitcount") and len(m[2]) == 1):
+                probs.append("the mask is not from_bitcount(prefix length): %s" % S.term_str(m)[:120])
+            else:
+                n_ = unwrap(m[2][0])
+                if not (n_[0] == "call" and n_[1].startswith("core::num::") and n_[1].endswith("::from_str") and piece(n_[2][0]) == 1):
+                    probs.append("the prefix length is not the number parsed from the text after the first '/': %s" % S.term_str(n_)[:120])
+    (ctx.bad if probs else ctx.ok)(rule, key, b.span, "; ".join(probs) if probs else
+        "cidr_to_ip(text) = (Ipv4Addr::from_str(piece 0 of split('/')), from_bitcount(u32::from_str(piece 1)))")
+    fc = prog.method("Ipv4Net", "from_cidr")
+    t3, _ = S.extract(prog, fc, effects=True)
+    okk = t3[0] == "call" and t3[1].rsplit("::", 1)[-1] == "map" and t3[2][0] == ("call", b.key, (S.params_of(fc)[0],)) and t3[2][1][0] == "fn"
+    if okk:
+        fb = prog.bodies.get(t3[2][1][1])
+        ft = S.extract(prog, fb, effects=True)[0] if fb is not None else None
+        v = S.params_of(fb)[0] if fb is not None else None
+        okk = ft is not None and ft[0] == "call" and ft[1].endswith("subnetting::{impl#7}::new") and ft[2] == (("field", v, "0"), ("field", v, "1"))
+    (ctx.ok if okk else ctx.bad)(rule, rule + ":from_cidr", fc.span, "from_cidr(text) = cidr_to_ip(text).map(|(ip, mask)| Ipv4Net::new(ip, mask))" if okk else
+        "from_cidr no longer builds Ipv4Net::new(ip, mask) from the parsed pair: %s" % S.term_str(t3)[:160])
